@@ -8,6 +8,7 @@ package main
 import (
 	"fmt"
 	"reflect"
+	"strconv"
 	"strings"
 
 	flags "github.com/jessevdk/go-flags"
@@ -53,6 +54,19 @@ func checkC10Bind(c *Ctx, n int) {
 					}
 				} else if f.Sub != nil {
 					strip(f.Sub)
+				}
+			}
+			// a quarter of the declarations spread the positional fields of a command over two structs
+			for fi := 0; fi < len(sd.Fields); fi++ {
+				f := &sd.Fields[fi]
+				if f.Tag == `positional-args:"yes"` && len(f.Sub.Fields) >= 2 && r.Intn(4) == 0 {
+					cut := 1 + r.Intn(len(f.Sub.Fields)-1)
+					second := FieldDesc{Name: g.fieldName(), Exported: true, Kind: "s", Tag: `positional-args:"yes"`,
+						Sub: &StructDesc{Fields: append([]FieldDesc{}, f.Sub.Fields[cut:]...)}}
+					f.Sub.Fields = f.Sub.Fields[:cut:cut]
+					rest := append([]FieldDesc{second}, sd.Fields[fi+1:]...)
+					sd.Fields = append(sd.Fields[:fi+1:fi+1], rest...)
+					fi++
 				}
 			}
 		}
@@ -105,6 +119,7 @@ func checkC10Bind(c *Ctx, n int) {
 		if len(args) == 0 {
 			continue
 		}
+		cmdPath := append([]string{}, argv...)
 		// flags in scope with a unique spelling, to interleave
 		count := map[string]int{}
 		var flagsInScope []string
@@ -209,6 +224,12 @@ func checkC10Bind(c *Ctx, n int) {
 				fieldNames = append(fieldNames, a.Name)
 			}
 			in["fields_in_declaration_order"] = fieldNames
+			// the parser's list of positional arguments is the declaration's, in its order
+			if decl := declaredPositional(cs, cmdPath); decl != nil && fmt.Sprint(decl) != fmt.Sprint(fieldNames) {
+				in["case_file"] = c.saveCase(cr)
+				c.Check("words-bind-to-fields-in-declaration-order", false, "C10:binding", in, fmt.Sprintf("the parser knows the positional arguments %q", fieldNames), fmt.Sprintf("declared: %q", decl))
+				return
+			}
 			fail := func(got, want string) {
 				in["case_file"] = c.saveCase(cr)
 				c.Check("words-bind-to-fields-in-declaration-order", false, "C10:binding", in, got, want)
@@ -267,4 +288,80 @@ func checkC10Bind(c *Ctx, n int) {
 			c.Check("words-bind-to-fields-in-declaration-order", true, "", nil, "", "")
 		})
 	}
+}
+
+// declaredPositional: the positional fields of the command reached by the path of command words, in
+// declaration order, read from the generated declaration itself (tag-declared commands)
+func declaredPositional(cs *Case, path []string) []string {
+	var cur []*StructDesc
+	for _, b := range cs.Build {
+		if b.Kind == "addgroup" && b.Target == 1 && b.Struct != nil {
+			cur = append(cur, b.Struct)
+		}
+	}
+	var findCmd func(sd *StructDesc, word string) *StructDesc
+	findCmd = func(sd *StructDesc, word string) *StructDesc {
+		for i := range sd.Fields {
+			f := &sd.Fields[i]
+			if f.Sub == nil {
+				continue
+			}
+			if name, ok := tagValue(f.Tag, "command"); ok {
+				if name == word {
+					return f.Sub
+				}
+				for _, p := range splitTagPairs(f.Tag) {
+					if strings.HasPrefix(p, "alias:\"") {
+						if a, err := strconv.Unquote(p[len("alias:"):]); err == nil && a == word {
+							return f.Sub
+						}
+					}
+				}
+			} else if !strings.Contains(f.Tag, "positional-args") {
+				if r := findCmd(f.Sub, word); r != nil {
+					return r
+				}
+			}
+		}
+		return nil
+	}
+	for _, word := range path {
+		var next *StructDesc
+		for _, sd := range cur {
+			if r := findCmd(sd, word); r != nil && next == nil {
+				next = r
+			}
+		}
+		if next == nil {
+			return nil
+		}
+		cur = []*StructDesc{next}
+	}
+	var out []string
+	var collect func(sd *StructDesc)
+	collect = func(sd *StructDesc) {
+		for i := range sd.Fields {
+			f := &sd.Fields[i]
+			if f.Sub == nil {
+				continue
+			}
+			if strings.Contains(f.Tag, "positional-args") {
+				for _, sf := range f.Sub.Fields {
+					if sf.Exported {
+						name := sf.Name
+						if pn, ok := tagValue(sf.Tag, "positional-arg-name"); ok && pn != "" {
+							name = pn
+						}
+						out = append(out, name)
+					}
+				}
+			} else if !strings.Contains(f.Tag, "command:\"") && !(f.Kind == "p" && !f.Exported) {
+				collect(f.Sub)
+			}
+		}
+	}
+	for _, sd := range cur {
+		collect(sd)
+	}
+	return out
 }
